@@ -21,7 +21,7 @@ CLAIMED = {
     ),
     "C09": dict(
         level="exploration", ref="DESIGN.md 5/C09",
-        text="Seeded walk of the credential x command x permission-list x key matrix (35 commands = every parser command word, 7 login kinds, 9 permission lists, permission changes mid-session) against an access-control reference model on a node booted by start_db: a denied command must leave the full white-box state (databases, role, member table, snapshot queue, pending operations) unchanged and return no data line; an allowed one must not be refused for lack of credentials; a failed use-db must keep the previous selection. One case in eight runs the same walk on the primary of a 2-node cluster: a refused command must leave the secondary's data unchanged too.",
+        text="Seeded walk of the credential x command x permission-list x key matrix (35 commands = every parser command word, 7 login kinds, 9 permission lists, permission changes mid-session) against an access-control reference model on a node booted by start_db: a denied command must leave the full white-box state (databases, role, member table, snapshot queue, pending operations) unchanged and return no data line; an allowed one must not be refused for lack of credentials; a failed use-db must keep the previous selection. One case in eight runs the same walk on the primary of a 2-node cluster: a refused command must leave the secondary's data unchanged too. Logins include a non-existent user with the literal text of an absent value as token; in the cluster scenario the session is on the primary or on the secondary and the other node's data must stay unchanged too.",
         note="essentially model-based input generation hosted in the simulator (the cluster commands' side effects really start threads); disruptive cluster commands are tested for refusal only",
         technique=TECH + "access-control reference model with full-state diff on refusal",
     ),
@@ -45,7 +45,7 @@ CLAIMED = {
     ),
     "C05": dict(
         level="exploration", ref="DESIGN.md 5/C05",
-        text="A real primary accumulates a seeded history over 1-3 databases; the second real node has never been up, was killed or was shut down by SIGINT (with or without a snapshot on its simulated disk) and then (re)joins through the real join / election / replicate-since protocol while a writer keeps writing on the primary; at quiescence its white-box dump must equal the primary's (token, strategy, values byte for byte, versions, removed keys). Fault sequences = departure kind x split of the history x writes racing the synchronisation. During-sync writes are either spread over the first second or issued at the instant the primary can read the joiner's replicate-since request (so they interleave with the catch-up computation, incl. a targeted remove/overwrite of a key the catch-up carries); one history in twelve adds 90-260 keys while the node is away (catch-up longer than the link's 100-message channel, judged by key presence).",
+        text="A real primary accumulates a seeded history over 1-3 databases; the second real node has never been up, was killed or was shut down by SIGINT (with or without a snapshot on its simulated disk) and then (re)joins through the real join / election / replicate-since protocol while a writer keeps writing on the primary; at quiescence its white-box dump must equal the primary's (token, strategy, values byte for byte, versions, removed keys). Fault sequences = departure kind x split of the history x writes racing the synchronisation. During-sync writes are either spread over the first second or issued at the instant the primary can read the joiner's replicate-since request (so they interleave with the catch-up computation, incl. a targeted remove/overwrite of a key the catch-up carries); one history in twelve adds 90-260 keys while the node is away (catch-up longer than the link's 100-message channel, judged by key presence). A second scenario lets a node that never ran join a primary (optionally killed and restarted first, so that its oplog is empty) whose history avoids the recorded findings, and compares databases and key sets (including user and permission keys).",
         note="runs whose join does not settle are discarded unless a node panicked; most violation classes on the pinned tree are recorded known findings (catch-up format pinned by unit tests)",
         technique=TECH + "rejoin fault sequences with a dataset-equality oracle at quiescence",
     ),
@@ -57,7 +57,7 @@ CLAIMED = {
     ),
     "C04": dict(
         level="exploration", ref="DESIGN.md 5/C04",
-        text="2-3 real nodes form a cluster through the real join/election protocol over the simulated TCP (FIFO links, latency/jitter); 1-8 operations are issued by sessions at arbitrary nodes (sequentially with quiescence in between, back to back, or from two concurrent clients on the primary); at quiescence the white-box dump of every node (databases, strategy, per-key value / removed-or-live / version) must equal the primary's. Seeded search over programs x delivery interleavings. Witness classes tell value-replacing writes from commuting ones (an increment-only divergence is a different class from the recorded set-on-a-secondary findings).",
+        text="2-3 real nodes form a cluster through the real join/election protocol over the simulated TCP (FIFO links, latency/jitter); 1-8 operations are issued by sessions at arbitrary nodes (sequentially with quiescence in between, back to back, or from two concurrent clients on the primary); at quiescence the white-box dump of every node (databases, strategy, per-key value / removed-or-live / version) must equal the primary's. Seeded search over programs x delivery interleavings. Witness classes tell value-replacing writes from commuting ones (an increment-only divergence is a different class from the recorded set-on-a-secondary findings). The working database uses the none or the newer strategy, versioned writes may be stale, and every snapshot request is really run by each node's snapshot thread (racing with the operations that follow unless the history waits for quiescence).",
         note="clusters that do not form with the oldest node as primary are discarded (C07's subject); $connections, oplog contents and ids are not compared; writes issued on secondaries and two racing clients on the primary are recorded known findings",
         technique=TECH + "multi-node convergence oracle over white-box dumps at quiescence",
     ),
@@ -75,7 +75,7 @@ CLAIMED = {
     ),
     "C03": dict(
         level="exploration", ref="DESIGN.md 5/C03",
-        text="Seeded search over lock-level interleavings of 1-2 writer and 1-2 subscriber sessions (watch/unwatch/unwatch-all/disconnect) on a node booted by start_db, direct and over the real TCP handler; the recorded history (global sequence stamps, unique values) is checked: every accepted write entirely inside a subscription is notified exactly once, refused and outside writes never, and the highest-versioned notification equals the final value. Values are mostly unique, one write in five repeats the key's previous value (notifications are then judged by count per value).",
+        text="Seeded search over lock-level interleavings of 1-2 writer and 1-2 subscriber sessions (watch/unwatch/unwatch-all/disconnect) on a node booted by start_db, direct and over the real TCP handler; the recorded history (global sequence stamps, unique values) is checked: every accepted write entirely inside a subscription is notified exactly once, refused and outside writes never, and the highest-versioned notification equals the final value. Values are mostly unique, one write in five repeats the key's previous value (notifications are then judged by count per value). Writers sometimes issue 40-140 writes back to back (a subscriber that is not reading piles up more notifications than its channel's nominal capacity); a third of the cases use a newer-strategy database with a single writer.",
         note="boundary-overlapping mutations may or may not be notified; increments/removes judged by counts; shuttle SeqCst",
         technique=TECH + "history check of notifications against subscription intervals",
     ),
@@ -123,7 +123,7 @@ CLAIMED = {
     ),
     "C02": dict(
         level="exploration", ref="DESIGN.md 5/C02",
-        text="Seeded search over lock-level interleavings of 2-3 concurrent sessions running the real process_request on a node booted by the real start_db, checked for linearizability against a versioned-register model plus the sequential version rules; sampling, not enumeration.",
+        text="Seeded search over lock-level interleavings of 2-3 concurrent sessions running the real process_request on a node booted by the real start_db, checked for linearizability against a versioned-register model plus the sequential version rules; sampling, not enumeration. In half of the concurrent cases the initial keys were persisted by a completed snapshot (one may have been removed again: tombstone) and in a quarter a snapshot (incremental or reclaiming) runs on the node's snapshot thread while the clients execute.",
         note="shuttle SeqCst memory model; simulated clock/disk/tcp facades; `set-safe k -1 v` treated as the unversioned write",
         technique=TECH + "linearizability check of recorded histories against a versioned-register model",
     ),
